@@ -110,12 +110,25 @@ def spec(name):
     raise KeyError(name)
 
 
-def make(name, scale=1.0, shift=0j):
-    """segment from the library, coordinates scaled and shifted (exact construction,
-    not through the library's own transforms)"""
+def _rot(deg):
+    if deg % 360 == 0:
+        return 1 + 0j
+    if deg % 360 == 90:
+        return 1j
+    if deg % 360 == 180:
+        return -1 + 0j
+    if deg % 360 == 270:
+        return -1j
+    return complex(math.cos(math.radians(deg)), math.sin(math.radians(deg)))
+
+
+def make(name, scale=1.0, shift=0j, rot=0):
+    """segment from the library, coordinates rotated (about 0), scaled and shifted
+    (exact construction, not through the library's own transforms)"""
     v = spec(name)
+    w = _rot(rot)
     if name in ARCS:
-        s, r, rot, la, sw, e = v
-        return Arc(s * scale + shift, r * scale, rot, la, sw, e * scale + shift)
-    pts = [p * scale + shift for p in v]
+        s, r, rotation, la, sw, e = v
+        return Arc(s * w * scale + shift, r * scale, rotation + rot, la, sw, e * w * scale + shift)
+    pts = [p * w * scale + shift for p in v]
     return {2: Line, 3: QuadraticBezier, 4: CubicBezier}[len(pts)](*pts)
